@@ -668,6 +668,46 @@ impl<'a> G<'a> {
         RawCase { defs, files: vec![("main.rssl".to_string(), main)] }
     }
 
+    /// a program of which (almost always) nothing at all is selected: the output of the preprocessor is empty or
+    /// blank only, and the parser must be handed `Eof` and nothing else.  (Every other generator ends with a
+    /// probe line, so their output is never empty.)
+    pub fn empty_case(&mut self) -> RawCase {
+        let k = self.r.below(12);
+        self.kinds.add(&format!("nothing-selected-shape:{}", k));
+        let inner = {
+            let c = if self.r.chance(1, 2) { self.cond_case() } else { self.case() };
+            c
+        };
+        self.eol = "\n";
+        let body = inner.files[0].1.clone();
+        let body_nl = if body.ends_with('\n') || body.is_empty() { body.clone() } else { format!("{}\n", body) };
+        let mut files: Vec<(String, String)> = Vec::new();
+        let main = match k {
+            0 => String::new(),
+            1 => "\n".to_string(),
+            2 => " \t /* c */ \n// only a comment\n\n".to_string(),
+            3 => "/* a comment\nover two lines */".to_string(),
+            4 => format!("#if 0\n{}#endif\n", body_nl),
+            5 => format!("#ifdef NEVER_DEFINED\n{}#endif", body_nl),
+            6 => format!("#if 1\n#else\n{}#endif\n", body_nl),
+            7 => "#define A 1\n#define F(x) x\n#undef A\n#pragma once\n".to_string(),
+            8 => {
+                files.push(("e.h".to_string(), String::new()));
+                files.push(("s.h".to_string(), "#if 0\nskipped\n#endif\n".to_string()));
+                "#include \"e.h\"\n#include <s.h>\n#include \"e.h\"\n".to_string()
+            }
+            9 => format!("#if 0\n#elif 0\n{}#else\n#endif\n", body_nl),
+            10 => "#if 1\n#if 0\nx\n#endif\n#else\ny\n#endif\n".to_string(),
+            _ => format!("#ifndef G\n#define G\n#include \"main.rssl\"\n#else\n#if 0\n{}#endif\n#endif\n", body_nl),
+        };
+        let mut all = vec![("main.rssl".to_string(), main)];
+        if matches!(k, 4 | 5 | 6 | 9 | 11) {
+            all.extend(inner.files[1..].iter().cloned());
+        }
+        all.extend(files);
+        RawCase { defs: if self.r.chance(1, 4) { vec![("A".to_string(), "1".to_string())] } else { Vec::new() }, files: all }
+    }
+
     /// one text for the entry point `preprocess_fragment` (request `C11.frag`): a single-file program of the
     /// ordinary generators, with lines in front that look at the define the function supplies
     /// (`__HLSL_VERSION`): tested with every relational operator, `#ifdef` / `#ifndef` / `defined`, as text,
